@@ -614,6 +614,7 @@ func mkTree(r *rand.Rand, root string, depth int) []tnode {
 	var rec func(rel string, d int)
 	rec = func(rel string, d int) {
 		n := 1 + r.Intn(3)
+		var sibDirs, sibFiles []string // what this directory already holds: targets for symbolic links
 		for _, nm := range mkNames(r, n) {
 			if len(nm) > 60 && d > 3 {
 				nm = nm[:20]
@@ -629,10 +630,19 @@ func mkTree(r *rand.Rand, root string, depth int) []tnode {
 						}
 					}
 					nodes = append(nodes, tnode{p, "dir"})
+					sibDirs = append(sibDirs, nm)
 					rec(p, d+1)
 				}
 			case k < 5:
-				if os.Symlink("target-"+nm, filepath.Join(root, p)) == nil {
+				// dangling, or to a directory or a file next to it
+				target := "target-" + nm
+				switch x := r.Intn(3); {
+				case x == 0 && len(sibDirs) > 0:
+					target = sibDirs[r.Intn(len(sibDirs))]
+				case x == 1 && len(sibFiles) > 0:
+					target = sibFiles[r.Intn(len(sibFiles))]
+				}
+				if os.Symlink(target, filepath.Join(root, p)) == nil {
 					nodes = append(nodes, tnode{p, "symlink"})
 				}
 			default:
@@ -643,6 +653,7 @@ func mkTree(r *rand.Rand, root string, depth int) []tnode {
 						}
 					}
 					nodes = append(nodes, tnode{p, "file"})
+					sibFiles = append(sibFiles, nm)
 				}
 			}
 		}
@@ -687,6 +698,17 @@ func genC16(c *Ctx) {
 		}
 		depth := []int{2, 4, 20, 40}[r.Intn(4)]
 		nodes := mkTree(r, e.root, depth)
+		// symbolic links at the root to a directory and to a file of the tree
+		for _, kind := range []string{"dir", "file"} {
+			for _, nd := range nodes {
+				if nd.kind == kind {
+					if os.Symlink(nd.rel, filepath.Join(e.root, "zl-"+kind)) == nil {
+						nodes = append(nodes, tnode{"zl-" + kind, "symlink"})
+					}
+					break
+				}
+			}
+		}
 		// a deep chain so that FWalk needs several Twalks
 		chain := ""
 		for d := 0; d < depth; d++ {
@@ -720,6 +742,13 @@ func genC16(c *Ctx) {
 			c.count("stat:" + nd.kind)
 			ino := st.Sys().(*syscall.Stat_t).Ino
 			var diffs []string
+			// the qid the walk reported for the object is the qid its stat reports
+			if wf, werr := e.c.FWalk(nd.rel); werr == nil {
+				if wf.Qid.Path != ino || wf.Qid.Type != d.Qid.Type {
+					diffs = append(diffs, fmt.Sprintf("Rwalk qid %#x/%d, Rstat qid %#x/%d, inode %d", wf.Qid.Type, wf.Qid.Path, d.Qid.Type, d.Qid.Path, ino))
+				}
+				e.c.Clunk(wf)
+			}
 			if (d.Qid.Type&g.QTDIR != 0) != st.IsDir() || (d.Mode&g.DMDIR != 0) != st.IsDir() {
 				diffs = append(diffs, "directory bit")
 			}
@@ -825,6 +854,8 @@ func genC16(c *Ctx) {
 					st, _ := os.Lstat(filepath.Join(append([]string{e.root}, names[:j+1]...)...))
 					if st == nil || q.Path != st.Sys().(*syscall.Stat_t).Ino {
 						c.oracleFail("C16/walk-qid", fmt.Sprintf("walk %v: qid %d is not element %d", names, q.Path, j), line)
+					} else if (q.Type&g.QTDIR != 0) != st.IsDir() || (q.Type&g.QTSYMLINK != 0) != (st.Mode()&os.ModeSymlink != 0) {
+						c.oracleFail("C16/walk-qid-type", fmt.Sprintf("walk %v: qid type %#x of element %d, the file is %v", names, q.Type, j, st.Mode()), line)
 					}
 				}
 			}
